@@ -34,6 +34,7 @@ CONSTANTS ChunkSizes,     \* chunk size limits, 0 = no limit
           KeyBits,        \* RSA key sizes of the certificates
           CertLen,        \* record: "<party><bits>" -> DER length of the minted certificate (measured by the harness)
           MinLen,         \* record: "<kind><dir>" -> smallest encoded size of a message of that kind (measured by the harness)
+          Sweeps,         \* padding sweeps of asymmetric chunks: set of [pol, dir, sbits, rbits, step] (see MCChunkLayout)
           DevSignPadded
 
 Policies == {"None", "Basic128Rsa15", "Basic256", "Basic256Sha256", "Aes128Sha256RsaOaep", "Aes256Sha256RsaPss"}
@@ -72,6 +73,12 @@ Cfg(c) ==
 
 SeqHdr == 8
 Pad(g, body) == IF ~g.padded THEN 0 ELSE g.minpad + ((g.plain - ((SeqHdr + body + g.sig + g.minpad) % g.plain)) % g.plain)
+\* the padding size field: every padding byte carries the low byte of (padding bytes - size bytes); with two size bytes (keys
+\* above 2048 bits) the last padding byte is ExtraPaddingSize, the high byte of that number
+PadLo(g, pad) == IF pad = 0 THEN 0 ELSE (pad - g.minpad) % 256
+PadHi(g, pad) == IF g.minpad = 2 THEN (pad - g.minpad) \div 256 ELSE 0
+\* what the receiver takes for the number of padding bytes from those size bytes
+PadRead(g, lo, hi) == hi * 256 + lo + g.minpad
 SecuredSize(g, body) ==
   IF g.padded THEN g.hdr + ((SeqHdr + body + Pad(g, body) + g.sig) \div g.plain) * g.cipher
   ELSE g.hdr + SeqHdr + body + g.sig
@@ -94,7 +101,8 @@ Layout(c) ==
       n == NChunks(c)
   IN [n |-> n,
       chunks |-> [i \in 1..n |->
-         [body |-> BodyOf(c, i), pad |-> Pad(g, BodyOf(c, i)), sig |-> g.sig, size |-> SecuredSize(g, BodyOf(c, i)),
+         [body |-> BodyOf(c, i), pad |-> Pad(g, BodyOf(c, i)), plo |-> PadLo(g, Pad(g, BodyOf(c, i))), phi |-> PadHi(g, Pad(g, BodyOf(c, i))),
+          sig |-> g.sig, size |-> SecuredSize(g, BodyOf(c, i)),
           fin |-> IF i = n THEN "F" ELSE "C", seq |-> c.seq0 + i - 1, req |-> c.req]]]
 
 -----------------------------------------------------------------------------
@@ -145,6 +153,9 @@ DesignHolds(c) ==
           /\ g.padded => /\ (SeqHdr + L.chunks[i].body + L.chunks[i].pad + g.sig) % g.plain = 0
                          /\ L.chunks[i].pad >= g.minpad
                          /\ L.chunks[i].pad < g.plain + g.minpad
+                         \* the size byte(s) are bytes and the receiver reads the number of padding bytes back from them
+                         /\ L.chunks[i].plo \in 0..255 /\ L.chunks[i].phi \in 0..255
+                         /\ PadRead(g, L.chunks[i].plo, L.chunks[i].phi) = L.chunks[i].pad
           /\ ~Encrypted(c) /\ ~DevSignPadded => L.chunks[i].pad = 0
      \* the chunk size is used: one more byte in a full chunk would not fit
      /\ c.cs > 0 => /\ SecuredSize(g, MaxBody(g, c.cs)) <= c.cs
